@@ -35,6 +35,20 @@ RangeOK(e, virt) ==
                   /\ W(Len(e.items)) = L
                   /\ \A i \in 1 .. Len(e.items) : e.items[i] = RangeItem(st, s, i))
 
+(* iterator adaptors over a short range agree with plain iteration (cnt items, validated by the range event) *)
+AdaptOK(e, virt) ==
+    LET n == e.cnt
+        m == e.m
+        Item(i) == RangeItem(e.a, e.s, i)
+        AtPos(k) == IF k < n THEN Ok(Item(k + 1)) ELSE None
+    IN IF virt /\ ~SameHalf(e.a, e.b) THEN TRUE
+       ELSE /\ \A j \in 1 .. Len(e.ks) : e.nth[j] = AtPos(e.ks[j]) /\ e.skip[j] = AtPos(e.ks[j])
+            /\ e.count = Ok(W(n))
+            /\ e.last = (IF n = 0 THEN None ELSE Ok(Item(n)))
+            /\ e.stepk = "ok" /\ Len(e.stepped) = (n + m - 1) \div m
+            /\ \A i \in 1 .. Len(e.stepped) : e.stepped[i] = Item((i - 1) * m + 1)
+            /\ e.hint_lo <= n /\ (e.hint_hi = -1 \/ e.hint_hi >= n)
+
 Blk(e, name, i) == e[name][i]
 
 SmallCodecsOK(e) ==
@@ -47,6 +61,8 @@ SmallCodecsOK(e) ==
 
 Unconstrained(r, valid(_)) == r.k = "panic" \/ (r.k = "ok" /\ valid(r.v))
 
+(* forward_unchecked / backward_unchecked are called by the driver only when the position exists: then it is that position *)
+UncheckedPre(chk, r) == IF chk.k = "ok" THEN r = chk ELSE r.k = "none"
 UncheckedOK(chk, r, valid(_)) == IF chk.k = "ok" THEN r = chk ELSE Unconstrained(r, valid)
 IsIndex(w) == Lt(w, W(512))
 
@@ -89,6 +105,12 @@ Check(e) ==
       [] op = "va_step_back_u" -> UncheckedOK(StepBack(e.a, e.b), e.res, Canonical)
       [] op = "pg_step_fwd_u"  -> UncheckedOK(PageStepFwd(e.a, e.b, e.s), e.res, Canonical)
       [] op = "pg_step_back_u" -> UncheckedOK(PageStepBack(e.a, e.b, e.s), e.res, Canonical)
+      [] op = "va_step_fwd_uu"  -> UncheckedPre(StepFwd(e.a, e.b), e.res)
+      [] op = "va_step_back_uu" -> UncheckedPre(StepBack(e.a, e.b), e.res)
+      [] op = "pg_step_fwd_uu"  -> UncheckedPre(PageStepFwd(e.a, e.b, e.s), e.res)
+      [] op = "pg_step_back_uu" -> UncheckedPre(PageStepBack(e.a, e.b, e.s), e.res)
+      [] op = "idx_step_fwd_uu"  -> UncheckedPre(IdxStepFwd(e.a, e.b), e.res)
+      [] op = "idx_step_back_uu" -> UncheckedPre(IdxStepBack(e.a, e.b), e.res)
       [] op = "idx_step_fwd_u"  -> UncheckedOK(IdxStepFwd(e.a, e.b), e.res, IsIndex)
       [] op = "idx_step_back_u" -> UncheckedOK(IdxStepBack(e.a, e.b), e.res, IsIndex)
       [] op = "va_step_fwd"   -> e.res = StepFwd(e.a, e.b)
@@ -127,6 +149,8 @@ Check(e) ==
       [] op = "lvl_value"     -> e.res = Ok(W(e.s))
       [] op = "pg_range"      -> RangeOK(e, TRUE)
       [] op = "fr_range"      -> RangeOK(e, FALSE)
+      [] op = "pg_range_adapt" -> AdaptOK(e, TRUE)
+      [] op = "fr_range_adapt" -> AdaptOK(e, FALSE)
       [] op = "pg_range_as4k" -> e.k = "ok" /\ e.ra = e.a /\ e.rb = e.b
       [] op = "rec_pages"     ->
             /\ e.k = "ok"
@@ -138,6 +162,7 @@ Check(e) ==
 AddrOps == {"va_new", "va_try_new", "va_trunc", "va_from_ptr", "va_add", "va_add_assign", "va_sub",
             "va_sub_assign", "va_align_up", "va_align_down", "va_step_fwd", "va_step_back",
             "va_step_fwd_u", "va_step_back_u", "pg_step_fwd_u", "pg_step_back_u",
+            "va_step_fwd_uu", "va_step_back_uu", "pg_step_fwd_uu", "pg_step_back_uu",
             "pg_step_fwd", "pg_step_back", "pg_add", "pg_add_assign", "pg_sub", "pg_sub_assign",
             "pg_containing", "pg_from_start", "pg_from_indices", "idt_handler_addr"}
 PhysOps == {"pa_new", "pa_try_new", "pa_trunc", "pa_add", "pa_add_assign", "pa_sub", "pa_sub_assign",
